@@ -701,12 +701,9 @@ def run_C10(ctx, rng, tier, res, known):
         md = gens.FMT[f]["maxdig"]
         for line, fam in base:
             t = line.split()
-            a = "" if t[2] == "-" else None
-            # only literal digit tokens
-            if any(("+" in x or x.startswith("r")) for x in (t[2], t[3])):
+            a, b = gens.untok(t[2]), gens.untok(t[3])
+            if a is None or b is None or not (a + b).isdigit():
                 continue
-            a = "" if t[2] == "-" else t[2][1:]
-            b = "" if t[3] == "-" else t[3][1:]
             e = int(t[4])
             digs = a + b
             e10 = e - len(b)
@@ -1391,6 +1388,15 @@ def run_C18(ctx, rng, tier, res, known):
 def run_C19(ctx, rng, tier, res, known):
     q = tier == "quick"
     cases = gens.gen_frontend(rng, 5000 if q else 200000)
+    # the structured inputs of C01 / C06 (boundaries, digit cuts inside the integer part, big-integer ties)
+    # written as text: what the front-end hands on must be the same digits, split and exponent
+    pfs = []
+    for f in ("f32", "f64"):
+        lng = [x for x in _mod().cases_long(rng, "quick", f) if len(x[0]) < 3000]
+        pfs += rng.sample(lng, min(len(lng), 700 if q else 8000))
+        pfs += gens.gen_boundary(rng, f, 500 if q else 10000) + gens.gen_bigint_ties(rng, f, 200 if q else 5000)
+        pfs += gens.gen_seams(rng, f)[::4]
+    cases += gens.frontend_from_pf(rng, pfs)
     lines = [c[0] for c in cases]
     for c in [x for x in ctx.cfgs if x in ("std", "std+compact", "std+alloc")]:
         model = run_model(c, "release", lines)
